@@ -647,6 +647,14 @@ func checkC08(p *core.Program, r *core.Report) {
 	r.Counts["receive_path_blocking_ops"] = nblock
 	r.Floor(R2, 1)
 
+	// ---- R4 concurrent websocket writes panic inside gorilla
+	const R4 = "C08.R4 transport-writes-serialised"
+	r.Rule(R4, "every gorilla write call holds the connection's write mutex: a peer can time its close announce so that the close frame and a pump write overlap, and gorilla panics on concurrent writes")
+	if wsA != nil {
+		wli := core.AnalyzeLocks(wsA.fns, func(fn *ssa.Function) bool { return fn.Object() != nil && fn.Object().Exported() })
+		checkTransportWrites(p, r, wsA, wli, R4)
+		r.Floor(R4, 1)
+	}
 	// ---- R3 lock order
 	checkLockOrder(p, r, R3, cg)
 }
